@@ -176,22 +176,32 @@ pub fn trunc(s: &str, n: usize) -> String {
     if s.chars().count() <= n { s.to_string() } else { s.chars().take(n).collect::<String>() + "…" }
 }
 
-/// Run `f`, turning a panic into `Err(message)`. The default hook is silenced by `quiet_panics`.
+thread_local! { static LAST_PANIC_LOC: std::cell::RefCell<String> = std::cell::RefCell::new(String::new()); }
+
+/// Run `f`, turning a panic into `Err("message @ file:line")`. The default hook is replaced by
+/// `quiet_panics`, which records the location.
 pub fn guarded<T>(f: impl FnOnce() -> T) -> Result<T, String> {
     match std::panic::catch_unwind(std::panic::AssertUnwindSafe(f)) {
         Ok(v) => Ok(v),
-        Err(e) => Err(if let Some(s) = e.downcast_ref::<String>() {
-            s.clone()
-        } else if let Some(s) = e.downcast_ref::<&str>() {
-            s.to_string()
-        } else {
-            "panic".to_string()
-        }),
+        Err(e) => {
+            let msg = if let Some(s) = e.downcast_ref::<String>() {
+                s.clone()
+            } else if let Some(s) = e.downcast_ref::<&str>() {
+                s.to_string()
+            } else {
+                "panic".to_string()
+            };
+            let loc = LAST_PANIC_LOC.with(|l| l.borrow().clone());
+            Err(format!("{} @ {}", trunc(&msg, 160), loc))
+        }
     }
 }
 
 pub fn quiet_panics() {
-    std::panic::set_hook(Box::new(|_| {}));
+    std::panic::set_hook(Box::new(|info| {
+        let loc = info.location().map(|l| format!("{}:{}", l.file().trim_start_matches("/repo/"), l.line())).unwrap_or_default();
+        LAST_PANIC_LOC.with(|l| *l.borrow_mut() = loc);
+    }));
 }
 
 /// Run `f` on a helper thread with a watchdog; `None` = did not finish in time (a hang).
